@@ -2,6 +2,7 @@
 package main
 
 import (
+	"bytes"
 	"fmt"
 	"net"
 	"sort"
@@ -291,6 +292,9 @@ func walkHitsSpecial(p []byte) bool {
 		i2 := i + l + 1
 		if i2-12 > 255 || i2 >= len(p) {
 			return false
+		}
+		if bytes.IndexByte(p[i+1:i2], '.') >= 0 {
+			return false // since repo commit c8663df decodeName stops with ErrParseFrame at a label containing '.'
 		}
 		i = i2
 	}
